@@ -171,7 +171,11 @@ func (con *Connection) Close() error {
 	log.Debug.Println("Close connection and remove session")
 
 	// Remove session from the context
-	con.context.DeleteSessionForConnection(con.connection)
+	// The sessions are stored by remote address. When the peer has connected again from the
+	// same address in the meantime, the stored session belongs to that new connection.
+	if session := con.context.GetSessionForConnection(con.connection); session == nil || session.Connection() == net.Conn(con) {
+		con.context.DeleteSessionForConnection(con.connection)
+	}
 
 	return con.connection.Close()
 }
